@@ -233,7 +233,26 @@ Definition obs_eqb (a b : ilp_obs) : bool :=
   list_eqb lrow_eqb (o_rows a) (o_rows b) && coefs_eqb (o_comm a) (o_comm b)
   && coefs_eqb (o_host a) (o_host b).
 
+(* the guards of the row-level theorems (Prop_C24: NoDup agent names, links_wf; fg_wf, fg_links_wf),
+   as booleans evaluated on every generated instance: the theorems apply to the tested population
+   (soundness of the booleans: P_IlpRows3) *)
+Definition links_wfb (G : ginst) : bool :=
+  forallb (fun l => forallb (fun c => zmem c (node_ids (g_inst G))) l) (g_links G).
+Definition oilp_guardsb (G : ginst) : bool :=
+  nodupb Z.eqb (agent_ids (g_inst G)) && links_wfb G.
+Definition fg_linkb (I : inst) (l : list Z) : bool :=
+  match l with [_; _] => true | _ => false end
+  && existsb (fun nd => (n_id nd =? fst (orient I l)) && (n_kind nd =? 0)) (i_nodes I)
+  && existsb (fun nd => (n_id nd =? snd (orient I l)) && (n_kind nd =? 1)) (i_nodes I).
+Definition fgdp_guardsb (G : ginst) : bool :=
+  nodupb Z.eqb (agent_ids (g_inst G)) && nodupb Z.eqb (node_ids (g_inst G))
+  && forallb (fun nd => (n_kind nd =? 0) || (n_kind nd =? 1)) (i_nodes (g_inst G))
+  && forallb (fg_linkb (g_inst G)) (g_links G).
+Definition guardsb (m : ilp_method) (G : ginst) : bool :=
+  match m with MOilp => oilp_guardsb G | MFgdp => fgdp_guardsb G end.
+
 (* c_ilp = None: no problem reached solve() *)
 Definition check_case (c : case) : bool :=
   M_Ilp.check_case (c_base c)
-  && option_eqb obs_eqb (model_ilp (c_method (c_base c)) (c_G (c_base c))) (c_ilp c).
+  && option_eqb obs_eqb (model_ilp (c_method (c_base c)) (c_G (c_base c))) (c_ilp c)
+  && guardsb (c_method (c_base c)) (c_G (c_base c)).
